@@ -35,6 +35,7 @@ func runC18(c *Ctx) {
 	r.Doc("U4", "suitable => non-fatal (same test first); limit only in diff > limit => false", 2)
 	r.Doc("U5", "PickUpMin: 1..max upward; PickUpMax: max..1 downward; loop variable under the predicate, 0 after", 8)
 	r.Doc("U6", "(= D8) v2 constructor applies the same test to the full set", 1)
+	r.Doc("U8", "the v2 constructor refuses a configuration only for: no divider, HandlersQuantity == 0, no inputs, divider fault, zero share (so every configuration the helpers judge non-fatal is accepted)", 4)
 	r.Doc("U7", "combination generator: for every priority in list order, every existing combination is extended by a fresh copy plus the singleton (step m -> 2m+1); extension copies, never aliases", 2)
 	for _, spec := range []struct {
 		p   *Prog
@@ -42,6 +43,7 @@ func runC18(c *Ctx) {
 	}{{c.V1, "priority"}, {c.V2, "priority/utils"}} {
 		c18prog(c, spec.p, spec.rel)
 	}
+	checkCtorRejections(c, c.V2, "U8")
 	sub := &Ctx{V1: c.V1, V2: c.V2, Tier: c.Tier, R: NewReport("tmp", c.Tier)}
 	checkD7D8(sub)
 	for _, o := range sub.R.Obls {
